@@ -36,4 +36,6 @@ def run(ctx):
     sb = ctx.gen_edges("MCSsdoGen", "C04_genq.cfg", timeout=3000)
     sb = common.thin(sb, 2500 if q else 20000, ctx.seed)
     ctx.replay(sb, common.wrap(sdo_alpha.preamble_for(objs)), sdo_common.observe, variant="h0", defines=sdo_alpha.VARIANTS["h0"], ordered=True, label="sdo_claimed_frames")
+    import sdo_trace
+    sdo_trace.run(ctx, 500 if q else 15000, ndlg=8)
 VARIANTS = {"default": (), "h0": ("CO_VERIF_SDO_BUF_SEG=3",)}
